@@ -1,7 +1,7 @@
 (* C03 — Gateway signer rotation: unique epochs, well-formed sets, latest-set and delay.
    Statements only; proofs in Proofs/GatewayAuth.v. *)
 From Coq Require Import String List NArith Lia.
-From Ax Require Import Lib.Bytes Lib.Mvx Model.Gateway Proofs.AListFacts Proofs.GatewayMsgs Proofs.GatewayAuth Gen.Generated.
+From Ax Require Import Lib.Bytes Lib.Mvx Model.Gateway Proofs.AListFacts Proofs.GatewayMsgs Proofs.GatewayAuth Model.GatewayCheck Model.GWUpgrade Proofs.GWUpgradeFacts Lib.Keccak Gen.Generated.
 Import ListNotations.
 Open Scope N_scope.
 
@@ -96,6 +96,72 @@ Print Assumptions c03_registered_forever.
 Print Assumptions c03_operator_complete.
 Print Assumptions c03_operatorship.
 
+(* the UPGRADE path (Model/GWUpgrade.v).  `init` ends by calling `upgrade(operator, signers)`, and an upgrade transaction -- which the
+   protocol accepts from the contract's owner only -- runs it again on the existing gateway: the listed sets are registered
+   through the same `rotate_signers_raw` as every rotation, without a proof and with the delay not enforced.  So "every successful
+   rotation advances the epoch by exactly one and registers a set never registered before; malformed sets are always rejected"
+   holds there too, the bijection and "registered forever" hold along histories with upgrades, and the operator changes only
+   through the operator's / owner's transferOperatorship or the owner's upgrade *)
+Section C03U.
+  Variable H : bytes -> bytes.
+  Variable verify : bytes -> bytes -> bytes -> bool.
+  Theorem c03_upgrade_spec : forall g now op srs g' ev,
+    gw_upgrade H g now op srs = Some (g', ev) ->
+    exists ws, decode_sets srs = Some ws /\
+      g_messages g' = g_messages g /\ g_retention g' = g_retention g /\ g_domain g' = g_domain g /\ g_min_delay g' = g_min_delay g /\
+      g_operator g' = (if bytes_eqb op zero_addr then g_operator g else op) /\
+      g_epoch g' = g_epoch g + N.of_nat (length ws) /\
+      (ws <> [] -> g_last_rot g' = now) /\
+      (ws = [] -> g_last_rot g' = g_last_rot g /\ g_hash_by_epoch g' = g_hash_by_epoch g /\ g_epoch_by_hash g' = g_epoch_by_hash g) /\
+      Forall (fun w => validate_signers w = true /\
+                       alookup bytes_eqb (signers_hash H w) (g_epoch_by_hash g) = None /\
+                       exists e, g_epoch g < e <= g_epoch g' /\ registered g' (signers_hash H w) e) ws.
+  Proof. exact (upgrade_spec H). Qed.
+  Theorem c03_upgrade_rejects : forall g now op srs ws w,
+    decode_sets srs = Some ws -> In w ws ->
+    validate_signers w = false \/ (exists e, registered g (signers_hash H w) e) ->
+    gw_upgrade H g now op srs = None.
+  Proof. exact (upgrade_rejects H). Qed.
+  Theorem c03_bijection_reachable_with_upgrades : forall now ret dom md op srs g ev ops,
+    gw_init H now ret dom md op srs = Some (g, ev) -> Inv (ugrun H verify g ops).
+  Proof. intros. apply ugrun_Inv. eapply init_Inv. eassumption. Qed.
+  Theorem c03_registered_forever_with_upgrades : forall g ops h e,
+    registered g h e -> registered (ugrun H verify g ops) h e.
+  Proof. exact (ugrun_registered_mono H verify). Qed.
+  Theorem c03_epoch_monotone_with_upgrades : forall g o, g_epoch g <= g_epoch (fst (ugstep H verify g o)).
+  Proof. exact (ugstep_epoch_mono H verify). Qed.
+  Theorem c03_operatorship_with_upgrades : forall g o,
+    g_operator (fst (ugstep H verify g o)) <> g_operator g ->
+    (exists c a, o = inl (GTransferOp c a) /\ (c_caller c = g_operator g \/ c_caller c = c_owner c) /\
+                 a <> zero_addr /\ g_operator (fst (ugstep H verify g o)) = a) \/
+    (exists c a srs, o = inr (GUpgrade c a srs) /\ a <> zero_addr /\ length a = 32%nat /\ g_operator (fst (ugstep H verify g o)) = a).
+  Proof. exact (operator_changes_with_upgrades H verify). Qed.
+End C03U.
+Print Assumptions c03_upgrade_spec.
+Print Assumptions c03_upgrade_rejects.
+Print Assumptions c03_bijection_reachable_with_upgrades.
+Print Assumptions c03_registered_forever_with_upgrades.
+Print Assumptions c03_operatorship_with_upgrades.
+
+(* non-vacuity (keccak-256): a gateway deployed with one set accepts an upgrade that registers a second set at epoch 2 and installs
+   a new operator; the same upgrade again is refused (the set is registered now), as is one carrying a set with a zero weight *)
+Module UpgradeNonVacuous.
+  Definition k1 := be_enc 32 11. Definition k2 := be_enc 32 22.
+  Definition W1 : wsigners := {| ws_signers := [ {| s_key := k1; s_weight := 1 |}; {| s_key := k2; s_weight := 2 |} ]; ws_threshold := 2; ws_nonce := zeros 32 |}.
+  Definition W2 : wsigners := {| ws_signers := [ {| s_key := k1; s_weight := 1 |}; {| s_key := k2; s_weight := 2 |} ]; ws_threshold := 3; ws_nonce := zeros 32 |}.
+  Definition W0 : wsigners := {| ws_signers := [ {| s_key := k1; s_weight := 0 |} ]; ws_threshold := 1; ws_nonce := zeros 32 |}.
+  Definition g0 := match gw_init keccak256 100 2 (be_enc 32 7) 10 (be_enc 32 1) [enc_wsigners W1] with Some (g, _) => g | None => empty_gw end.
+  Definition newop := be_enc 32 5.
+  Example upgrade_registers : match gw_upgrade keccak256 g0 105 newop [enc_wsigners W2] with
+                              | Some (g', _) => g_epoch g0 = 1 /\ g_epoch g' = 2 /\ g_operator g' = newop /\ g_last_rot g' = 105 /\
+                                                registered g' (signers_hash keccak256 W2) 2 /\ registered g' (signers_hash keccak256 W1) 1 /\
+                                                gw_upgrade keccak256 g' 106 zero_addr [enc_wsigners W2] = None
+                              | None => False end.
+  Proof. vm_compute. repeat split; reflexivity. Qed.
+  Example upgrade_refuses_malformed : gw_upgrade keccak256 g0 105 newop [enc_wsigners W2; enc_wsigners W0] = None.
+  Proof. vm_compute. reflexivity. Qed.
+End UpgradeNonVacuous.
+
 Example pin_storage : gen_gw_storage = ["domain_separator"; "epoch"; "epoch_by_signer_hash"; "last_rotation_timestamp"; "messages";
    "minimum_rotation_delay"; "operator"; "previous_signers_retention"; "signer_hash_by_epoch"]%string := eq_refl.
 
@@ -104,3 +170,11 @@ Check c03_operatorship : forall H verify g o,
     g_operator (fst (gstep H verify g o)) <> g_operator g ->
     exists c a, o = GTransferOp c a /\ (c_caller c = g_operator g \/ c_caller c = c_owner c) /\
                 a <> zero_addr /\ g_operator (fst (gstep H verify g o)) = a.
+
+Check c03_operatorship_with_upgrades : forall H verify g o,
+    g_operator (fst (ugstep H verify g o)) <> g_operator g ->
+    (exists c a, o = inl (GTransferOp c a) /\ (c_caller c = g_operator g \/ c_caller c = c_owner c) /\
+                 a <> zero_addr /\ g_operator (fst (ugstep H verify g o)) = a) \/
+    (exists c a srs, o = inr (GUpgrade c a srs) /\ a <> zero_addr /\ length a = 32%nat /\ g_operator (fst (ugstep H verify g o)) = a).
+Check c03_registered_forever_with_upgrades : forall H verify g ops h e,
+    registered g h e -> registered (ugrun H verify g ops) h e.
